@@ -60,3 +60,28 @@ def check(ctx: Ctx) -> None:
                       f"element frame differs from the documented rule: emits {fmt(toks)}; rule says {fmt(spec_for(m, sc))}"
                       + (f" (under extra condition {free[0][0]})" if free else ""))
     ctx.count("frame scenario x path comparisons", nf)
+
+
+def thorough(ctx: Ctx) -> None:
+    """Model composition: extracted frame + transducer vs composed specification over abstract trees."""
+    from ..compose import Composer, enumerate_trees
+    m = model(ctx)
+    comp = Composer(m)
+    n = bad = 0
+    for kind, t in enumerate_trees(3, c06_only=True):
+        for indent, eol_on in ((0, True), (2, True), (0, False)):
+            n += 1
+            if kind == "tag":
+                a = comp.render_tag(t, indent, eol_on, True)
+                b = comp.render_tag(t, indent, eol_on, False)
+            else:
+                a = comp.render_list(t[1], indent, eol_on, True, True, True)
+                b = comp.render_list(t[1], indent, eol_on, True, True, False)
+            if a != b:
+                bad += 1
+                if bad <= 3:
+                    ctx.fail("C06.compose", TL if kind == "list" else TG, f"composed rendering of {t!r} at indent={indent} eol={'on' if eol_on else 'empty'}",
+                             f"the composed model renders {a} where the documented rule gives {b}")
+    ctx.count("composed trees compared", n)
+    if not bad:
+        ctx.ok("C06.compose", f"{n} composed (tree, indent, eol) cases equal the composed specification (sibling sequences up to length 3, one nesting level)")
